@@ -12,7 +12,9 @@ import (
 	"reflect"
 	"sort"
 	"strings"
+	"runtime"
 	"sync"
+	"sync/atomic"
 	"syscall"
 	"time"
 
@@ -34,7 +36,7 @@ func init() {
 		Level:        "exploration",
 		Race:         true,
 		FreshProcess: true,
-		Rule: "built with -race; every case runs in a fresh process (new map hash seeds). Inputs: synthetic modules with 20-200 entries in every translator index (types, comdats, globals, attribute groups, named and numbered metadata), the atom catalogue, llvm-stress programs and rejected inputs (undefined / duplicate names). Per (input, process): R sequential parses, each entry point (ParseFile, Parse through 1-byte and PRNG-chunk readers, through readers that deliver their last bytes together with io.EOF, ParseBytes, ParseString), parses after unrelated parse/print activity, and G goroutines parsing different inputs at once must all give the same accept/reject outcome, the same String() and the same structural digest; the digest is also compared across processes; exported singletons (types.*, constant.True/False/None, metadata.Null) are snapshotted before and after; any race report is a violation. The Visit hooks record the key order of each translator map loop. Every accepted input is also printed three times (same text each time, and a module that is structurally what a parse printed once is), and two parses of it are compared as object graphs: apart from types and the exported constants they share no instruction, constant, metadata node, big number or slice storage. " +
+		Rule: "built with -race; every case runs in a fresh process (new map hash seeds). Inputs: synthetic modules with 20-200 entries in every translator index (types, comdats, globals, attribute groups, named and numbered metadata), the atom catalogue, llvm-stress programs and rejected inputs (undefined / duplicate names). Per (input, process): R sequential parses, each entry point (ParseFile, Parse through 1-byte and PRNG-chunk readers, through readers that deliver their last bytes together with io.EOF, ParseBytes, ParseString), parses after unrelated parse/print activity, and G goroutines parsing different inputs at once must all give the same accept/reject outcome, the same String() and the same structural digest; the digest is also compared across processes; exported singletons (types.*, constant.True/False/None, metadata.Null) are snapshotted before and after; The first parses of a process are concurrent ones in the cold-start cases (16 goroutines, outcomes compared with sequential parses made afterwards), and every concurrent phase is repeated crowded: 16 goroutines on GOMAXPROCS 2, three parses each, the translator yielding the processor inside its loops through the order hook. any race report is a violation. The Visit hooks record the key order of each translator map loop. Every accepted input is also printed three times (same text each time, and a module that is structurally what a parse printed once is), and two parses of it are compared as object graphs: apart from types and the exported constants they share no instruction, constant, metadata node, big number or slice storage. " +
 			"non-trivial = an (input, process) pair whose map loops were observed in at least two different orders within the process (order diversity witnessed), or a rejected input; distinct by (input, process)",
 		Gen:           genC12,
 		Post:          postC12,
@@ -166,7 +168,7 @@ func genC12(ctx *fw.Ctx) []fw.Case {
 	var always, rest []corpus.Source
 	for _, b := range base {
 		if strings.HasPrefix(b.ID, "atom/module/") || strings.HasPrefix(b.ID, "atom/global/") || strings.HasPrefix(b.ID, "atom/md/tuples") || strings.HasPrefix(b.ID, "atom/types/") || strings.HasPrefix(b.ID, "atom/md/di-compileunit") || strings.HasPrefix(b.ID, "atom/md/named-") || strings.HasPrefix(b.ID, "atom/func/attrgroup") ||
-			strings.HasPrefix(b.ID, "atom/inst/gep") || strings.HasPrefix(b.ID, "atom/const/blockaddress") {
+			strings.HasPrefix(b.ID, "atom/inst/gep") || strings.HasPrefix(b.ID, "atom/const/blockaddress") || strings.HasPrefix(b.ID, "atom/const/int-") {
 			always = append(always, b)
 		} else {
 			rest = append(rest, b)
@@ -192,6 +194,14 @@ func genC12(ctx *fw.Ctx) []fw.Case {
 			}
 			cases = append(cases, fw.Case{ID: fmt.Sprintf("proc%d/%s", p, s.ID), Run: func(r *fw.Rec) { c12Case(r, p, s, comp) }})
 		}
+	}
+	// the first parses of a process are concurrent ones
+	for k := 0; k < ctx.Pick(8, 60); k++ {
+		var srcs []corpus.Source
+		for q := 0; q < 6; q++ {
+			srcs = append(srcs, inputs[(k*6+q*11)%len(inputs)])
+		}
+		cases = append(cases, fw.Case{ID: fmt.Sprintf("cold-start/%d", k), Run: func(r *fw.Rec) { c12ColdStart(r, srcs) }})
 	}
 	// once per process number: a long run of rejected and panicking inputs between two
 	// parses of the same probes (state that leaks on the error paths accumulates)
@@ -632,18 +642,14 @@ func c12Case(r *fw.Rec, proc int, s corpus.Source, companions []corpus.Source) {
 		r.Tally("phases", "after-other-activity")
 	}
 	// --- phase 4: concurrent parses of different inputs
-	type job struct {
-		id, text string
-		want     string
-	}
-	jobs := []job{{s.ID, text, ref.summary()}}
+	jobs := []c12Job{{s.ID, text, ref.summary()}}
 	for _, c := range companions {
 		ct, err := c.Text()
 		if err != nil {
 			continue
 		}
 		seq := c12Parse(func() (*ir.Module, error) { return asm.ParseString(c.ID, ct) })
-		jobs = append(jobs, job{c.ID, ct, seq.summary()})
+		jobs = append(jobs, c12Job{c.ID, ct, seq.summary()})
 	}
 	G := r.Ctx().Pick(8, 32)
 	var wg sync.WaitGroup
@@ -670,12 +676,126 @@ func c12Case(r *fw.Rec, proc int, s corpus.Source, companions []corpus.Source) {
 		}
 	}
 	r.Tally("phases", "concurrent-parses")
+	// the same with more goroutines than processors (GOMAXPROCS 2) and the
+	// translator giving up the processor inside its loops (the hook that records
+	// map orders yields at PRNG points): goroutines now interleave on one
+	// processor in the middle of a translation, which is what it takes for
+	// per-processor storage (sync.Pool) handed back too early to reach another
+	// parse while its first user still reads it
+	if bad := c12Crowded(r, jobs, 16, 3); bad {
+		return
+	}
+	r.Tally("phases", "concurrent-parses-crowded(GOMAXPROCS=2,yields)")
 	// --- canary
 	if after := c12Canary(); after != canaryBefore {
 		r.Violate(fw.Violation{Key: "singleton-mutated/" + s.ID, Input: text, What: "an exported package-level singleton changed during parsing/printing", Expected: canaryBefore, Observed: after})
 	}
 	if proc == 0 && strings.HasPrefix(s.ID, "big/") {
 		r.Sample(map[string]interface{}{"input": s.ID, "bytes": len(text), "process": proc, "outcome": ref.summary(), "map_loops_seen_in_2+_orders": diverse, "repetitions": R})
+	}
+}
+
+type c12Job struct{ id, text, want string }
+
+// c12Crowded lets G goroutines parse the jobs `reps` times each on two
+// processors, the translator yielding inside its loops. A job without `want`
+// is compared with the sequential outcome computed afterwards.
+func c12Crowded(r *fw.Rec, jobs []c12Job, G, reps int) (bad bool) {
+	old := runtime.GOMAXPROCS(2)
+	var ctr uint64
+	verifhook.SetVisit(func(site string, key interface{}) {
+		if atomic.AddUint64(&ctr, 1)%3 == 0 {
+			runtime.Gosched()
+		}
+	})
+	var wg sync.WaitGroup
+	got := make([][]string, G)
+	start := make(chan struct{})
+	for g := 0; g < G; g++ {
+		wg.Add(1)
+		go func(g int) {
+			defer wg.Done()
+			<-start
+			for k := 0; k < reps; k++ {
+				j := jobs[(g+k)%len(jobs)]
+				got[g] = append(got[g], c12Parse(func() (*ir.Module, error) { return asm.ParseString(j.id, j.text) }).summary())
+			}
+		}(g)
+	}
+	close(start)
+	wg.Wait()
+	verifhook.SetVisit(nil)
+	runtime.GOMAXPROCS(old)
+	for i := range jobs {
+		if jobs[i].want == "" {
+			j := jobs[i]
+			jobs[i].want = c12Parse(func() (*ir.Module, error) { return asm.ParseString(j.id, j.text) }).summary()
+		}
+	}
+	for g := 0; g < G; g++ {
+		for k := range got[g] {
+			j := jobs[(g+k)%len(jobs)]
+			r.Eval(1)
+			if got[g][k] != j.want {
+				r.Violate(fw.Violation{Key: "concurrent-parse/" + j.id, Input: j.text,
+					What: fmt.Sprintf("parsing %s while %d other goroutines on 2 processors parse other inputs gives %s, alone it gives %s", j.id, G-1, got[g][k], j.want), Expected: j.want, Observed: got[g][k]})
+				return true
+			}
+		}
+	}
+	return false
+}
+
+// c12ColdStart: the first parses of a fresh process are concurrent ones (tables
+// that the library builds on first use are built while other parses run); the
+// sequential outcomes they are compared with are computed afterwards.
+func c12ColdStart(r *fw.Rec, srcs []corpus.Source) {
+	var jobs []c12Job
+	for _, s := range srcs {
+		if t, err := s.Text(); err == nil {
+			jobs = append(jobs, c12Job{id: s.ID, text: t})
+		}
+	}
+	if len(jobs) == 0 {
+		r.Inconclusive("no sources")
+		return
+	}
+	canaryBefore := c12Canary()
+	G := 16
+	var wg sync.WaitGroup
+	got := make([]string, G)
+	start := make(chan struct{})
+	for g := 0; g < G; g++ {
+		wg.Add(1)
+		go func(g int) {
+			defer wg.Done()
+			<-start
+			j := jobs[g%len(jobs)]
+			got[g] = c12Parse(func() (*ir.Module, error) { return asm.ParseString(j.id, j.text) }).summary()
+		}(g)
+	}
+	close(start)
+	wg.Wait()
+	for i := range jobs {
+		j := jobs[i]
+		jobs[i].want = c12Parse(func() (*ir.Module, error) { return asm.ParseString(j.id, j.text) }).summary()
+	}
+	for g := 0; g < G; g++ {
+		j := jobs[g%len(jobs)]
+		r.Eval(1)
+		if got[g] != j.want {
+			r.Violate(fw.Violation{Key: "cold-start-concurrent-parse/" + j.id, Input: j.text,
+				What: fmt.Sprintf("parsing %s as one of the first %d parses of the process, all concurrent, gives %s, alone (afterwards) it gives %s", j.id, G, got[g], j.want), Expected: j.want, Observed: got[g]})
+			return
+		}
+	}
+	r.Nontrivial("cold/" + jobs[0].id)
+	r.Tally("phases", "cold-start-concurrent-parses")
+	if c12Crowded(r, jobs, 16, 2) {
+		return
+	}
+	if after := c12Canary(); after != canaryBefore {
+		r.Violate(fw.Violation{Key: "singleton-mutated/cold-start", What: "an exported package-level singleton changed during parsing", Expected: canaryBefore, Observed: after})
 	}
 }
 
